@@ -294,7 +294,13 @@ def run_job(job):
         gain0 = float(getattr(solver, "gain", 0.0))
         error = None
         results = []
-        for k in job["calls"]:
+        for ci, k in enumerate(job["calls"]):
+            if ci == 1 and job.get("interloper"):
+                # an unrelated solver instance constructed between two solve() calls (never solved): process-global
+                # state (64-bit mode, logging) it touches must not change what THIS solver computes
+                from mdpax.problems import Forest
+                from mdpax.solvers import ValueIteration as _VI
+                _VI(Forest(S=3), **job["interloper"])
             try:
                 st = solver.solve(max_iterations=k)
                 results.append(st)
@@ -397,7 +403,8 @@ def project(job, raw):
                "cok": False, "c": 0, "inf": False, "gok": False, "g": 0,
                "perm": [], "permref": [], "pol": [], "polok": True, "pick": [], "hidx": ev.get("hidx", 0),
                "nchanged": ev.get("n_changed", 0), "evals": [], "polidx": [],
-               "retok": bool(ev.get("retok", True)), "vhok": bool(ev.get("vhok", True))}
+               "retok": bool(ev.get("retok", True)), "vhok": bool(ev.get("vhok", True)),
+               "f64": ev.get("dtype", "float64") == "float64"}
         if "conv" in ev:
             if ev["conv"] == float("inf"):
                 rec["inf"] = True
